@@ -346,9 +346,15 @@ def run_verus_unit(unit, root, timeout):
     jm = re.search(r'\{\s*"(verification-results|times-ms|encountered)', text)
     verified = errors = 0
     js = None
+    start = None
     try:
-        start = text.index('{')
-        js = json.loads(text[start:text.rindex('}') + 1])
+        # the JSON block is the last top-level object of the output (diagnostics before it may contain braces of quoted code)
+        cands = [m.start() for m in re.finditer(r'^\{\s*$', text, re.M)] + [m.start() for m in re.finditer(r'\{\s*"(encountered-|verification-results|times-ms|verus)', text)]
+        for st in sorted(set(cands)):
+            try:
+                js = json.loads(text[st:text.rindex('}') + 1]); start = st; break
+            except Exception:
+                js = None
     except Exception:
         js = None
     if js and 'verification-results' in js:
@@ -362,7 +368,7 @@ def run_verus_unit(unit, root, timeout):
         res['success'] = False
     res['verified'], res['errors'] = verified, errors
     # failed obligations: rustc-style diagnostics precede the JSON
-    diag = text[:text.index('{')] if '{' in text else text
+    diag = text[:start] if start is not None else text
     failed = []
     for m in re.finditer(r'error: ([^\n]*)\n\s*--> [^\n]*?:(\d+):(\d+)', diag):
         failed.append({'message': m.group(1), 'line': int(m.group(2))})
@@ -464,8 +470,9 @@ def main():
     known = [k for k in json.load(open(os.path.join(VERIF, 'known_findings.json'))).get('findings', []) if k['property'] == pid]
     scratch = os.path.join(SCRATCH_BASE, f'smoltcp-verif.{pid}.{os.getpid()}')
     os.makedirs(scratch, exist_ok=True)
-    evidence_path = os.path.join(VERIF, 'evidence', pid + '.json')
-    replay_dir = os.path.join(VERIF, 'replays', pid)
+    out_base = os.environ.get('VERIF_OUT', VERIF)      # seeded-change evaluation writes elsewhere so that committed evidence stays that of /repo
+    evidence_path = os.path.join(out_base, 'evidence', pid + '.json')
+    replay_dir = os.path.join(out_base, 'replays', pid)
 
     if args.replay:
         return do_replay(args.replay, spec, scratch, args)
